@@ -251,6 +251,10 @@ class Gen:
         else:
             w = r.randint(1, bits)
         named = w > 0 and r.random() < 0.8
+        if not named and base[0] in "EF":
+            # `enum E : 3;` is read as a C23 enum-type-specifier (6.7.3.3): cproc diagnoses it
+            base = r.choice(["int", "uint", "long", "char", "ushort", "ullong", "short"])
+            w = min(w, SCALARS[base][3] * 8)
         return (self.name() if named else None, ("sc", base), 0, w)
 
     def su(self, depth, top=False, allow_bf=True):
@@ -351,7 +355,7 @@ def render(tid, t):
 
 
 # ------------------------------------------------------------------ output parsers
-DATA_RE = re.compile(r"^(?:export )?data \$(\w+) = align (\d+) \{ (.*) \}\s*$")
+DATA_RE = re.compile(r"^(?:export )?data \$(\w+) = align (\d+) \{(.*)\}\s*$")
 
 
 def parse_cproc(text):
@@ -813,21 +817,16 @@ def run_enums(ck, cproc, n):
         if i < 400 or not ck.quick:
             g = observe(["gcc", "-w", "-S", "-o", "-"], e, True) if e[1] is None else ("n/a",)
             cl = observe(["clang", "-w", "-S", "-o", "-"], e, True)
-            oracle = None
-            if g[0] == "ok" and cl[0] == "ok":
-                oracle = g[1] if g[1] == cl[1] else None
-            elif g[0] in ("n/a", "rejected") and cl[0] == "ok" and s.startswith("ok"):
-                oracle = cl[1]
-            elif g[0] == "rejected" and cl[0] == "rejected":
-                oracle = "none"
-            if oracle is None:
+            # gcc 12 / clang 14 accept (with a warning, wrapping the value) declarations that C23 makes
+            # invalid, and gcc 12 rejects an implicit enumerator overflowing the previous one's type:
+            # only a type the spec chooses can be contradicted by an oracle that accepts.
+            acc = [x for x in (g, cl) if x[0] == "ok"]
+            if not s.startswith("ok") or not acc:
                 stats["oracle_skipped"] += 1
             else:
                 stats["oracle_checked"] += 1
-                if oracle != (s[3:] if s.startswith("ok") else "none") and not (oracle == "none" and g[0] == "n/a"):
-                    # clang accepts some declarations C23/gcc reject (wraps silently): only a spec `ok`
-                    # that an accepting oracle contradicts counts
-                    if s.startswith("ok") or (g[0] == "ok" and cl[0] == "ok"):
+                for x in acc:
+                    if x[1] != s[3:]:
                         raise Broken("Spec/Abi enum rule disagrees with gcc/clang on `%s`: spec %s, gcc %s, clang %s"
                                      % (enum_c(e).splitlines()[0], s, g, cl))
     ck.cov["enum_hist"] = hist
